@@ -45,10 +45,14 @@ def build_tools():
     key = C.file_hash(srcs, "cli-tools-v1")
     d = os.path.join(C.BUILD, f"cli-tools-{key}")
     if all(os.path.exists(os.path.join(d, t)) for t in TOOLS):
+        os.utime(d)
         return d
-    for old in os.listdir(C.BUILD):
-        if old.startswith("cli-tools-") or old.startswith("cli-cmake-"):
-            shutil.rmtree(os.path.join(C.BUILD, old), ignore_errors=True)
+    # keep the two most recently used tool sets (switching HEX_REPO between two trees is common);
+    # remove older ones and any scratch tree left by an interrupted build
+    olds = sorted((o for o in os.listdir(C.BUILD) if o.startswith("cli-tools-")),
+                  key=lambda o: os.path.getmtime(os.path.join(C.BUILD, o)), reverse=True)
+    for old in olds[2:] + [o for o in os.listdir(C.BUILD) if o.startswith("cli-cmake-")]:
+        shutil.rmtree(os.path.join(C.BUILD, old), ignore_errors=True)
     scratch = tempfile.mkdtemp(prefix="cli-cmake-", dir=C.BUILD)
     t = time.time()
     try:
@@ -623,7 +627,7 @@ def random_cases(ctx, rng, n):
                 if it[0] == "opt" and it[1] in ("-o", "--output"):
                     part[idx] = ("opt", it[1], rng.choice(["o1.bin", "o2.bin", "out", "x.y.z", "--tokens", "-o", "nodir/o.bin", "a.out"]))
                 if it[0] == "opt" and it[1] == "--max-cycles" and rng.chance(1, 6):
-                    part[idx] = ("opt", it[1], rng.choice(["abc", "", "-", "12x", "0", "18446744073709551616"]))
+                    part[idx] = ("opt", it[1], rng.choice(["abc", "", "-", "100000x", "0", "18446744073709551616", "-1"]))
         keys = list((ASM_SRC if tool in ("hexasm", "hexsim") else X_SRC).keys())
         if tool == "hexsim":
             keys = [k_ for k_ in keys if ASM_SRC[k_]["kind"] == "valid"]
@@ -762,7 +766,16 @@ def run(tier, seed, replay=None):
             "case": {"tool": k[0], "argv": [name], "files": {name: hexs((ASM_SRC if k[0] == 'hexasm' else X_SRC)[k[1]]["text"])},
                      "expect": {"kind": "accept-binary", "out": "a.out", "image": "<any>"}, "tag": "reference"},
             "observation": o, "violated": ["valid source not accepted by the canonical invocation"], "seed": seed})
-    for sig, (c, o, m, clauses) in sorted(failing.items()):
+    # one replay per (tool, violated clause); listed round-robin over the tools so that the five
+    # VIOLATION lines the report prints cover as many tools as possible
+    by_tool = {t: sorted(k for k in failing if k.startswith(t + ":")) for t in TOOLS}
+    order = []
+    while any(by_tool.values()):
+        for t in TOOLS:
+            if by_tool[t]:
+                order.append(by_tool[t].pop(0))
+    for sig in order:
+        c, o, m, clauses = failing[sig]
         rep.violation(sig.replace(":", "-"), {
             "case": c, "observation": o, "expectation": c["expect"], "violated": clauses, "model": m, "seed": seed,
             "rerun": f"./check {PID} --replay <this file>",
@@ -774,7 +787,9 @@ def run(tier, seed, replay=None):
                                          "count": len(mismatches),
                                          "broken": "correspondence Cli.Model vs the executables (no observation contradicts the C14 oracle)"},
                       no_input=True)
-    elif mismatches:
+    rep.coverage["model_mismatch_samples"] = [{"tool": c["tool"], "argv": c["argv"], "differences": d}
+                                              for c, o, m, d in mismatches[:8]]
+    if mismatches and failing:
         rep.coverage["first_model_mismatch"] = {"argv": mismatches[0][0]["argv"], "tool": mismatches[0][0]["tool"],
                                                 "differences": mismatches[0][3]}
     if problems:
